@@ -481,6 +481,10 @@ pub struct RecCollector {
     st: Mutex<RecState>,
     /// answer `sometimes` instead of `always` from register_callsite
     pub sometimes: bool,
+    /// accept only levels >= this (1 = TRACE .. 5 = ERROR): 1 accepts everything, 3 = INFO and more severe
+    pub min_level: u8,
+    /// announce the level threshold through max_level_hint
+    pub hint: bool,
 }
 
 thread_local! {
@@ -495,7 +499,11 @@ pub fn stack_snapshot() -> Vec<u64> {
 
 impl RecCollector {
     pub fn new(sometimes: bool) -> Self {
-        RecCollector { st: Mutex::new(RecState { next: 1, rc: HashMap::new() }), sometimes }
+        RecCollector { st: Mutex::new(RecState { next: 1, rc: HashMap::new() }), sometimes, min_level: 1, hint: false }
+    }
+    /// accepts spans and events at INFO and more severe only
+    pub fn info_and_up(sometimes: bool, hint: bool) -> Self {
+        RecCollector { st: Mutex::new(RecState { next: 1, rc: HashMap::new() }), sometimes, min_level: 3, hint }
     }
 }
 
@@ -512,15 +520,24 @@ fn par_of(parent: Option<&Id>, root: bool, ctx: bool) -> Par {
 }
 
 impl Collect for RecCollector {
-    fn register_callsite(&self, _: &'static Metadata<'static>) -> Interest {
+    fn register_callsite(&self, m: &'static Metadata<'static>) -> Interest {
         if self.sometimes {
             Interest::sometimes()
-        } else {
+        } else if lvl(m.level()) >= self.min_level {
             Interest::always()
+        } else {
+            Interest::never()
         }
     }
-    fn enabled(&self, _: &Metadata<'_>) -> bool {
-        true
+    fn enabled(&self, m: &Metadata<'_>) -> bool {
+        lvl(m.level()) >= self.min_level
+    }
+    fn max_level_hint(&self) -> Option<tracing_core::LevelFilter> {
+        if self.hint && self.min_level == 3 {
+            Some(tracing_core::LevelFilter::INFO)
+        } else {
+            None
+        }
     }
     fn new_span(&self, a: &Attributes<'_>) -> Id {
         let mut v = FieldVisit::default();
